@@ -376,19 +376,19 @@ theorem Same.evolves {s s' : St} (h : Same s s') : Evolves s s' := by
 
 /-- from a state satisfying the chain and finalization invariants, the next state satisfies them
     and keeps all finalized states -/
-def Good (s s' : St) : Prop := ChainAll s → FinInv s → ChainAll s' ∧ FinInv s' ∧ Evolves s s'
+def Good (s s' : St) : Prop := ChainAll s → FinInv s → ChainAll s' ∧ FinInv s' ∧ Evolves s s' ∧ s'.p = s.p
 
-theorem Good.refl (s : St) : Good s s := fun hc hi => ⟨hc, hi, Evolves.refl s⟩
+theorem Good.refl (s : St) : Good s s := fun hc hi => ⟨hc, hi, Evolves.refl s, rfl⟩
 
 theorem Good.trans {a b c : St} (h1 : Good a b) (h2 : Good b c) : Good a c := by
   intro hc hi
-  obtain ⟨c1, i1, e1⟩ := h1 hc hi
-  obtain ⟨c2, i2, e2⟩ := h2 c1 i1
-  exact ⟨c2, i2, e1.trans e2⟩
+  obtain ⟨c1, i1, e1, p1⟩ := h1 hc hi
+  obtain ⟨c2, i2, e2, p2⟩ := h2 c1 i1
+  exact ⟨c2, i2, e1.trans e2, p2.trans p1⟩
 
 theorem FS.good {s s' : St} (h : FS s s') : Good s s' := by
   intro hc hi
   obtain ⟨p1, s1⟩ := h (hi.pre hc)
-  exact ⟨p1.chain, hi.same s1, s1.evolves⟩
+  exact ⟨p1.chain, hi.same s1, s1.evolves, s1.p⟩
 
 end DymVerif.Core
